@@ -73,6 +73,9 @@ type Pipe struct {
 	writes         int
 
 	CloseMode string
+	// CloseErr, if set, is returned by Close (after it took effect), as real transports do when
+	// the peer is already gone.
+	CloseErr error
 
 	opened   bool
 	closed   bool
@@ -144,7 +147,7 @@ func (p *Pipe) Close() error {
 	p.log("close", nil)
 	p.cond.Broadcast()
 
-	return nil
+	return p.CloseErr
 }
 
 // Release unblocks everything for good (harness teardown).
